@@ -1702,6 +1702,12 @@ class RaiseModel:
                 return set()  # **kwargs is always a dict
             if not is_user_value(cfg, call.func.value):
                 return set()
+        if meth == 'acquire' and isinstance(call.func, ast.Attribute):
+            # Lock.acquire(blocking, timeout) validates a timeout it is handed: ValueError for a negative one other than -1 (or
+            # one combined with blocking=False), OverflowError for one that is too large - before anything is acquired
+            tmo = call.args[1] if len(call.args) > 1 else next((k.value for k in call.keywords if k.arg == 'timeout'), None)
+            if isinstance(tmo, ast.Name) and is_user_value(cfg, tmo):
+                return {'ValueError', 'OverflowError'}
         if meth == 'release' and isinstance(call.func, ast.Attribute) and not (cfg.res.path(call.func.value) or '').startswith('self.'):
             # Lock.release() raises only when the lock is not held; for a lock
             # that lives in a closure / local / global the pairing is visible
